@@ -333,6 +333,11 @@ def configs(tier):
             for nc in [False, True]:
                 for (n_rdm, n_pattern) in (ns if nm == 2 or not quick else ns[3:]):
                     out.append(dict(case='extract', kind=kind, n_model=nm, nc=nc, n_rdm=n_rdm, n_pattern=n_pattern))
+    if quick:
+        # pair ORDER only shows with >= 4 models (first-index-major and second-index-major orders agree up to 3)
+        for kind in ['vector', 'matrix', 'stack']:
+            for nc in [False, True]:
+                out.append(dict(case='extract', kind=kind, n_model=4, nc=nc, n_rdm=5, n_pattern=7))
     out.append(dict(case='ttests', n_model=3, n_sample=2, dof=4))
     out.append(dict(case='ttests', n_model=2, n_sample=3, dof=7, nan_samples=[1]))
     out.append(dict(case='ttests', n_model=2, n_sample=2, dof=3, n_fold=2))
